@@ -40,6 +40,9 @@ func nodeKey(run uint64, i int) (x509.PrivateKey, x509.PublicKey) {
 type tier[A p2p.Addr] struct {
 	sw  []p2p.Swarm[A]
 	sec []p2p.SecureSwarm[A, Pub] // nil when the layer is not secure
+	// ask: the layer's constructor hands out an ask-capable swarm (the concrete
+	// types often have Ask methods that the returned interface does not expose)
+	ask bool
 }
 
 func secureTier[A p2p.Addr](xs []p2p.SecureSwarm[A, Pub]) tier[A] {
@@ -96,7 +99,9 @@ func (w *World) baseMem() tier[memswarm.Addr] {
 	for i := 0; i < w.P.N; i++ {
 		xs = append(xs, realm.NewSwarm(w.Pubs[i]))
 	}
-	return secureTier(xs)
+	t := secureTier(xs)
+	t.ask = true
+	return t
 }
 
 func fragL[A p2p.Addr](w *World, t tier[A]) tier[A] {
@@ -122,7 +127,9 @@ func mbappL[A p2p.Addr](w *World, t tier[A]) tier[A] {
 	for _, s := range t.sec {
 		xs = append(xs, mbapp.New[A, Pub](s, w.P.FragMTU, mbapp.WithNumWorkers(w.P.Workers)))
 	}
-	return secureTier(xs)
+	t2 := secureTier(xs)
+	t2.ask = true
+	return t2
 }
 
 // muxOpen opens the given channels on every node and returns one tier per channel.
@@ -202,6 +209,7 @@ func muxOpen[A p2p.Addr](w *World, t tier[A], kind string, ask bool, chans []any
 		if len(out[ci].sec) != len(out[ci].sw) {
 			out[ci].sec = nil
 		}
+		out[ci].ask = ask
 	}
 	return out
 }
@@ -278,6 +286,7 @@ func wlL[A p2p.Addr](w *World, t tier[A]) tier[A] {
 		addrs[i] = text(s.LocalAddrs()[0])
 	}
 	var xs []p2p.SecureSwarm[A, Pub]
+	askOut := t.ask
 	for i, s := range t.sec {
 		me := i
 		allow := func(a A) bool {
@@ -292,13 +301,16 @@ func wlL[A p2p.Addr](w *World, t tier[A]) tier[A] {
 			}
 			return false
 		}
-		if sa, ok := s.(p2p.SecureAskSwarm[A, Pub]); ok {
+		if sa, ok := s.(p2p.SecureAskSwarm[A, Pub]); ok && t.ask {
 			xs = append(xs, wlswarm.WrapSecureAsk[A, Pub](sa, allow))
 		} else {
+			askOut = false
 			xs = append(xs, wlswarm.WrapSecure[A, Pub](s, allow))
 		}
 	}
-	return secureTier(xs)
+	t3 := secureTier(xs)
+	t3.ask = askOut
+	return t3
 }
 
 func p2pkeL[A p2p.Addr](w *World, t tier[A]) tier[p2pkeswarm.Addr[A]] {
@@ -328,7 +340,7 @@ func p2pkeL[A p2p.Addr](w *World, t tier[A]) tier[p2pkeswarm.Addr[A]] {
 }
 
 func multiL[A, B p2p.Addr](w *World, ta tier[A], tb tier[B]) tier[multiswarm.Addr] {
-	ask := true
+	ask := ta.ask && tb.ask
 	for i := range ta.sw {
 		if _, ok := ta.sw[i].(p2p.SecureAskSwarm[A, Pub]); !ok {
 			ask = false
@@ -346,6 +358,7 @@ func multiL[A, B p2p.Addr](w *World, ta tier[A], tb tier[B]) tier[multiswarm.Add
 					"ta": multiswarm.WrapSecureAskSwarm[A, Pub](ta.sw[i].(p2p.SecureAskSwarm[A, Pub])),
 					"tb": multiswarm.WrapSecureAskSwarm[B, Pub](tb.sw[i].(p2p.SecureAskSwarm[B, Pub])),
 				}))
+				out.ask = true
 			} else {
 				xs = append(xs, multiswarm.NewSecure[Pub](map[string]multiswarm.DynSecureSwarm[Pub]{
 					"ta": multiswarm.WrapSecureSwarm[A, Pub](ta.sec[i]),
@@ -353,7 +366,9 @@ func multiL[A, B p2p.Addr](w *World, ta tier[A], tb tier[B]) tier[multiswarm.Add
 				}))
 			}
 		}
-		return secureTier(xs)
+		t4 := secureTier(xs)
+		t4.ask = out.ask
+		return t4
 	}
 	for i := range ta.sw {
 		out.sw = append(out.sw, multiswarm.New(map[string]multiswarm.DynSwarm{
@@ -379,17 +394,25 @@ func above[A p2p.Addr](w *World, spec []string, t tier[A]) []Endpoint {
 			t = wlL(w, t)
 		case strings.HasPrefix(l, "mux-"):
 			kind := strings.TrimPrefix(l, "mux-")
-			t = muxOpen(w, t, kind, false, []any{defaultChan(kind, w.P.Channel)})[0]
+			var c any
+			if len(spec) == 0 {
+				c = w.P.Channel // the per-run channel id applies to the outermost layer
+			}
+			t = muxOpen(w, t, kind, false, []any{defaultChan(kind, c)})[0]
 		case strings.HasPrefix(l, "askmux-"):
 			kind := strings.TrimPrefix(l, "askmux-")
-			t = muxOpen(w, t, kind, true, []any{defaultChan(kind, w.P.Channel)})[0]
+			var c any
+			if len(spec) == 0 {
+				c = w.P.Channel
+			}
+			t = muxOpen(w, t, kind, true, []any{defaultChan(kind, c)})[0]
 		case l == "map":
 			return above(w, spec, mapL(w, t))
 		default:
 			panic("unknown layer " + l)
 		}
 	}
-	return cluster(t.sw)
+	return cluster(t.sw, t.ask)
 }
 
 // aboveKE is `above` for the layers under which a p2pke layer may still occur.
@@ -427,7 +450,8 @@ func (w *World) Build(spec string) []Endpoint {
 		ab := strings.Split(rest, "+")
 		ta := w.typedMem(strings.Split(ab[0], "/"))
 		tb := w.typedSim(strings.Split(ab[1], "/"))
-		return cluster(multiL(w, ta, tb).sw)
+		mt := multiL(w, ta, tb)
+		return cluster(mt.sw, mt.ask)
 	}
 	base := parts[len(parts)-1]
 	layers := parts[:len(parts)-1]
